@@ -849,6 +849,16 @@ func (ev *Eval) call(e *Expr) *Value {
 		a := ev.evalAddr(e.Args[0])
 		slot, idx := onceSlot(a)
 		return scalar(specBool, Select(ev.state().heapArr(slot, onceSort), idx))
+	case "holds":
+		// holds(x.mu): this goroutine holds mutex x.mu at this point of the path (for reading or writing)
+		a := ev.evalAddr(e.Args[0])
+		key, _, _, _ := ev.v.lockKey(a)
+		for _, h := range ev.state().held {
+			if h.key == key {
+				return scalar(specBool, True)
+			}
+		}
+		return scalar(specBool, False)
 	case "didlock":
 		// true iff this path acquired a monitor lock that guards fields
 		if g := ev.state().ghost["$didlock"]; g != nil {
